@@ -187,6 +187,30 @@ func genLen(r *common.Rng, max int, big bool) int {
 	return max + r.Range(3, 400)
 }
 
+// genHost: a DNS-valid, case-unique host name for the scripted resolver (cases run concurrently).
+func genHost(r *common.Rng) string {
+	n := r.Range(1, 24)
+	b := make([]byte, n)
+	for i := range b {
+		b[i] = byte('a' + r.Intn(26))
+	}
+	name := fmt.Sprintf("%s-%x.c05test", b, r.U64()&0xffffffff)
+	return fmt.Sprintf("d:%s:%d", hex.EncodeToString([]byte(name)), genPort(r))
+}
+
+var resolverAnswers = []string{"4:01010101", "4:c6336407", "6:20010db8000000000000000000000001", "6:00000000000000000000ffff08080808"}
+
+// directTarget: for the direct client half of the targets are scripted hosts (answer or failure in c.Res).
+func directTarget(r *common.Rng, c *Case) string {
+	if r.Bool() {
+		return genAddrPort(r)
+	}
+	if r.Intn(5) != 0 {
+		c.Res = common.Pick(r, resolverAnswers)
+	}
+	return genHost(r)
+}
+
 func genPair(r *common.Rng) Case {
 	c := Case{Kind: "pair", Seed: r.U64()}
 	switch k := r.Intn(10); {
@@ -203,6 +227,9 @@ func genPair(r *common.Rng) Case {
 	c.MTU = genMTU(r)
 	c.Srv6, c.Cli6 = r.Bool(), r.Bool()
 	c.Addr = genAddr(r, p.name == "direct", true)
+	if p.name == "direct" {
+		c.Addr = directTarget(r, &c)
+	}
 	c.Src = genAddrPort(r)
 	c.PolC, c.PolS = common.Pick(r, pols), common.Pick(r, pols)
 	c.Slack = genSlack(r)
@@ -210,7 +237,7 @@ func genPair(r *common.Rng) Case {
 	big := c.MTU > 9000
 	limit := specLimit(c.MTU, c.Srv6)
 	if p.name == "direct" {
-		limit = dirLimit(c.MTU, c.Addr)
+		limit = dirLimit(c.MTU, c.Addr, c.Res)
 	}
 	c.Len = genLen(r, limit-specFront(p, false, specAddrLen(c.Addr))-specRear(p), big)
 	c.Len2 = genLen(r, specLimit(c.MTU, c.Cli6)-specFront(p, true, specAddrLen(c.Src))-specRear(p), big)
@@ -254,6 +281,9 @@ func genRelay(r *common.Rng, i int) Case {
 	c.Srv6, c.Cli6 = r.Bool(), r.Bool()
 	c.PolC, c.PolS = common.Pick(r, pols), common.Pick(r, pols)
 	c.Addr = genAddr(r, cp.name == "direct", true)
+	if cp.name == "direct" && c.Kind == "up" && sp.name != "direct" {
+		c.Addr = directTarget(r, &c) // the remote client names a scripted host; our direct client resolves it
+	}
 	c.Src = genAddrPort(r)
 	for n := r.Intn(3); n > 0; n-- {
 		c.Others = append(c.Others, common.Pick(r, clientProtos))
